@@ -436,3 +436,63 @@ Example accept_orca_f :
   exists M, generate_transformation 3 (rev (default_comps 3))
               ["c0"; "c1"; "s1"; "c2"; "s2"; "-c3"; "-s3"]%string SLeft = Some M.
 Proof. eexists. vm_compute. reflexivity. Qed.
+
+(* ------------------------------------------------------------------ *)
+(* 4. the angular Gram matrix is made of Gaussian moments               *)
+(*                                                                     *)
+(* [g1 n] (Model/SphExact.v) is the moment m_n of Gauss/Moment1D.v at   *)
+(* v = 1:  m_0 = 1, m_1 = 0, m_(n+2) = (n+1) v m_n.  With v = 1/(4a)    *)
+(* (two Gaussians of exponent a on one centre: p = 2a) m_n = g1 n v^(n/2), *)
+(* and v^(l) is common to all pairs of components of one shell; this is *)
+(* the overlap used by [orthonormal].                                   *)
+(* ------------------------------------------------------------------ *)
+From GB Require Import Base.Field Gauss.Moment1D.
+
+Lemma g1_SS n : g1 (S (S n)) = (Z.of_nat (S n) * g1 n)%Z.
+Proof.
+  unfold g1. change (Nat.even (S (S n))) with (Nat.even n).
+  destruct (Nat.even n) eqn:E; [|now rewrite Z.mul_0_r].
+  apply Nat.even_spec in E as [k ->].
+  replace (S (S (2 * k))) with (2 * S k) by lia.
+  rewrite !(Nat.mul_comm 2), !Nat.div_mul by lia.
+  cbn [zdf_odd]. f_equal. lia.
+Qed.
+
+Lemma zdf_odd_pos n : (0 < zdf_odd n)%Z.
+Proof. induction n as [|n IH]; cbn [zdf_odd]; lia. Qed.
+
+Lemma g1_nonneg n : (0 <= g1 n)%Z.
+Proof. unfold g1. destruct (Nat.even n); [pose proof (zdf_odd_pos (n / 2))|]; lia. Qed.
+
+Section GramMoment.
+Context {F : Type} (K : Fops F) (Kf : is_field K).
+Add Field KFg : Kf.
+
+Lemma ofnat_add a b : ofnat K (a + b) = fadd K (ofnat K a) (ofnat K b).
+Proof. induction a as [|a IH]; cbn [ofnat plus]; [ring|rewrite IH; ring]. Qed.
+
+Lemma ofnat_mul a b : ofnat K (a * b) = fmul K (ofnat K a) (ofnat K b).
+Proof.
+  induction a as [|a IH]; cbn [ofnat mult]; [ring|].
+  rewrite ofnat_add, IH. ring.
+Qed.
+
+Lemma gram1_is_moment n : mom K (f1 K) n = ofnat K (Z.to_nat (g1 n)).
+Proof.
+  assert (H : mom K (f1 K) n = ofnat K (Z.to_nat (g1 n))
+              /\ mom K (f1 K) (S n) = ofnat K (Z.to_nat (g1 (S n)))).
+  { induction n as [|n [IH1 IH2]].
+    - split.
+      + rewrite mom_0. change (Z.to_nat (g1 0)) with 1%nat. cbn [ofnat]. ring.
+      + rewrite mom_1. change (Z.to_nat (g1 1)) with 0%nat. reflexivity.
+    - split; [exact IH2|]. rewrite mom_SS, IH1, g1_SS.
+      rewrite Z2Nat.inj_mul by (try apply g1_nonneg; lia).
+      rewrite Nat2Z.id, ofnat_mul. ring. }
+  exact (proj1 H).
+Qed.
+End GramMoment.
+
+(* the hypothesis [is_field K] is satisfiable: the executable instance *)
+Definition K0 : Fops Qc := QcK (Q2Qc 0) (fun x => x) (fun x => x) (fun x => x) (fun _ x => x).
+Example gram1_is_moment_Qc n : mom K0 (f1 K0) n = ofnat K0 (Z.to_nat (g1 n)).
+Proof. apply gram1_is_moment. apply QcK_field. Qed.
